@@ -7,6 +7,20 @@ def S(name, quick, thorough, search=None, args=None):
     return d
 
 PROPS = {
+    'C15': {
+        'lean': ['MageModel.Props.C15', 'MageModel.Bridge.C15'],
+        'streams': [S('c15', 300, 4000)],
+        'trusted': ['os/exec (Cmd.Run, environment de-duplication: last binding wins), os.Expand (transcribed in Sh/Expand.lean and diffed), the helper child cmd/shchild'],
+        'assumptions': ['exit codes 0..255; death by signal and I/O errors on the writers are outside the quantifier; inherited environment has unique keys'],
+        'rule': 'random (function, verbose, inherited env, env map, command kind, $VAR argument atoms, exit code incl. a sweep over 0..255, stdout/stderr/stdin payload classes); distinct = different canonical oracle input; no case is trivial',
+    },
+    'C16': {
+        'lean': ['MageModel.Props.C16', 'MageModel.Bridge.C16'],
+        'streams': [S('c16', 120, 1500)],
+        'trusted': ['Go slice/append semantics as modelled in Sh/Slices.lean (in place iff len+n <= cap)', 'the helper child cmd/shchild echoing its argv'],
+        'assumptions': ['sequential consistency; the interleaving of concurrent closure calls is only sampled (8 goroutines x 3 repeats), the theorem covers sequential histories'],
+        'rule': 'histories of 1-6 calls of one RunCmd/OutCmd closure (baked 0-3 args, spare capacity 0-5, extra 0-3 args, environment changes between calls), direct calls of six sh functions with the caller\'s slice and env map, and concurrent calls of one closure; distinct = different canonical oracle input',
+    },
     'C17': {
         'lean': ['MageModel.Props.C17', 'MageModel.Bridge.C17'],
         'streams': [S('c17', 150, 2500)],
